@@ -1,4 +1,4 @@
-// C17: Dawson_Integral is odd and accurate to 2e-7 absolutely, Erfi to 1e-6 relatively, for |x| <= 30 and on both sides of the
+// C17: Inv_Erf is accurate to 1e-4 on (-1,1) up to 1 - 1e-12; Dawson_Integral is odd and accurate to 2e-7 absolutely, Erfi to 1e-6 relatively, for |x| <= 30 and on both sides of the
 // series / sampling-sum switch at |x| = 0.2 (reference: the defining integral by composite Gauss-Legendre quadrature in long double).
 #include "harness.hpp"
 #include <cmath>
@@ -48,6 +48,32 @@ int main()
 				if(fabsl(e - eref) > 1e-6L * fabsl(eref)) { if(shown++ < 8) printf("OBSERVED Erfi(%.9g) = %.12g, reference %.12Lg (relative error %.3Lg > 1e-6)  ** VIOLATES the property **\n", y, e, eref, fabsl(e - eref) / fabsl(eref)); g_viol++; }
 			}
 		}
+	// Inv_Erf: |Inv_Erf(p) - erfinv(p)| <= 1e-4 on (-1,1) up to 1 - 1e-12 (reference: Newton's iteration on erfl / erfcl in long double)
+	{
+		std::vector<double> qs;	  // q = 1 - |p|
+		for(double q = 0.999; q > 1e-3; q *= 0.93) qs.push_back(q);
+		for(double q = 1e-3; q >= 1e-12; q *= 0.71) qs.push_back(q);
+		for(double q : {5.6e-4, 1.5e-12, 5e-12, 1.45e-11, 1e-12}) qs.push_back(q);
+		for(double q : qs)
+			for(int sgn = 0; sgn < 2; sgn++)
+			{
+				double pp = sgn ? -(1.0 - q) : (1.0 - q);
+				long double qq = 1.0L - fabsl((long double) pp);	  // the tail actually represented by the double argument
+				long double x = sqrtl(fmaxl(0.0L, -logl(qq * (2.0L - qq)))) * 0.9L + 0.1L;
+				for(int it = 0; it < 200; it++)
+				{
+					long double fx = erfcl(x) - qq, d = -2.0L / sqrtl(acosl(-1.0L)) * expl(-x * x);
+					long double step = fx / d;
+					x -= step;
+					if(x < 0) x = 0;
+					if(fabsl(step) < 1e-17L * (1.0L + x)) break;
+				}
+				long double ref = sgn ? -x : x;
+				double got = Inv_Erf(pp);
+				cnt++;
+				if(fabsl(got - ref) > 1e-4L) { if(shown++ < 8) printf("OBSERVED Inv_Erf(%.17g) = %.9g, reference %.9Lg (error %.3Lg > 1e-4)  ** VIOLATES the property **\n", pp, got, ref, fabsl(got - ref)); g_viol++; }
+			}
+	}
 	printf("OBSERVED %ld arguments\n", cnt);
 	return finish();
 }
